@@ -196,7 +196,19 @@ def checkCounts (what : String) (total : Nat) (s : String) : Option String :=
       | some (j, _) => some (if j == 0 then s!"{what}.count()≠N-on-fresh-iterator" else s!"{what}.count()-after-j-next≠N-j")
       | none => none
 
+/-- a valid diagram (what `validate()` accepts, the property's quantifier "all Bdds"): terminals exact, every
+    decision node with links inside the array, a variable below `num_vars` and strictly below its children's.
+    On anything else the predicate is not evaluated (agreement with the model only). -/
+def validArr (A : Arr) : Bool :=
+  let n := numVars A
+  A.size > 0 && A[0]! == ⟨n, 0, 0⟩ && (A.size == 1 || A[1]! == ⟨n, 1, 1⟩) &&
+  (List.range A.size).all fun p => p < 2 ||
+    (let nd := A[p]!
+     nd.var < n && nd.low < A.size && nd.high < A.size && nd.var < (A[nd.low]!).var && nd.var < (A[nd.high]!).var)
+
 def handle (key : String) (ins obs : List String) : Verdict :=
+  -- an observation `hang` (the runner's watchdog) is a plain disagreement: nothing can be evaluated on it
+  if obs == ["hang"] then { agree := false, model := "returns", fail := none, nontrivial := false, tags := ["hang"] } else
   match key, ins, obs with
   | "C09.cnt", [a], [oExact, oClause, oBits, oSup, oSpv, oSize, oPaths, oPC, oVC] =>
     match parseArr? a with
@@ -205,6 +217,7 @@ def handle (key : String) (ins obs : List String) : Verdict :=
       let model := s!"{showO (exactCardO A)} {showO (clauseCardO A)} {showBitsO A} {showNats (supportSet A)} {showPairs (sizePerVariable A)} {A.size}"
       let observed := s!"{oExact} {oClause} {oBits} {oSup} {oSpv} {oSize}"
       let fail : Option String :=
+        if !validArr A then none else
         match oExact.toNat?, oClause.toNat?, parseHex? oBits, parseNats? oSup, parsePairs? oSpv, oSize.toNat? with
         | some ex, some cl, some bits, some sup, some spv, some sz =>
           let br := brute A
@@ -249,6 +262,7 @@ def handle (key : String) (ins obs : List String) : Verdict :=
       let model := s!"{showO (exactCardO A)} {showO (exactCardO B)} {showO (exactCardO mor)} {showO (exactCardO mand)} {showO (exactCardO (bddNot A))}"
       let observed := s!"{oa} {ob} {oor} {oand} {onot}"
       let fail : Option String :=
+        if !(validArr A && validArr B) then none else
         match oa.toNat?, ob.toNat?, oor.toNat?, oand.toNat?, onot.toNat? with
         | some ca, some cb, some cor, some cand, some cnot =>
           firstFail [
@@ -269,11 +283,11 @@ def handle (key : String) (ins obs : List String) : Verdict :=
       let model := s!"{showO (exactCardO R)} {showO (clauseCardO R)} {showBitsO R} {showNats (supportSet R)} {showPairs (sizePerVariable R)} {R.size}"
       let observed := s!"{oExact} {oClause} {oBits} {oSup} {oSpv} {oSize}"
       let fail : Option String :=
+        if !validArr R then none else
         match oExact.toNat?, oClause.toNat?, parseHex? oBits, parseNats? oSup, parsePairs? oSpv, oSize.toNat? with
         | some ex, some cl, some bits, some sup, some spv, some sz =>
           let br := brute R
           firstFail [
-            if numVars F == n then none else some "result-num_vars",
             if n ≤ maxTT then (if popcount (ttOf R n) == ex then none else some "exact≠popcount") else none,
             match br with | some (_, c) => if c == ex then none else some "exact≠Σpaths" | none => none,
             match br with | some (p, _) => if p == cl then none else some "clause≠#paths" | none => none,
